@@ -53,6 +53,30 @@ func runC10(c *ctxT) {
 			}
 		}
 	}
+	// directed: a collector pass overlapping the replacement of the pod it is looking at. The collector has
+	// listed the record of a pod that is gone; while it reads the pod (or right before its status write) the
+	// old record is finalized and removed, the pod is recreated and its new record bound.
+	if c.Batch == 1%max(c.NBatch, 1) {
+		id := 0
+		for _, trunk := range []bool{true, false} {
+			for _, at := range []string{"get", "write"} {
+				for _, fixed := range []string{"", "ttl-zero"} {
+					id++
+					hid := 810000 + id
+					fmt.Printf("CASE C10 directed-gc %d trunk=%v at=%s fixed=%q\n", hid, trunk, at, fixed)
+					h := newPeHist(c, "C10", hid, peCfg{Trunk: trunk, Names: 1}, int64(hid))
+					sp := h.mon.spec["p0"]
+					sp.Fixed, sp.Owner, sp.NIfs = fixed, "StatefulSet", 1
+					peScriptGCOverlap(h, at)
+					peSettle(h, 10, false)
+					peJudgeEnd(h)
+					r.Eval(1)
+					r.Count("directed_collector_overlap_cases", 1)
+					h.finish(r)
+				}
+			}
+		}
+	}
 	runPeHistories(c, "C10", n, 64, func(rng *rand.Rand) peCfg { return genPeCfg(rng) }, func(h *peHist) {
 		peRandomWalk(h)
 		peSettle(h, 30, false)
@@ -93,4 +117,37 @@ func peScriptRecreate(h *peHist, pos int, eni bool) {
 	h.deliverENI("p0")
 	h.deliverPod("p0")
 	h.deliverENI("p0")
+}
+
+// peScriptGCOverlap: see runC10.
+func peScriptGCOverlap(h *peHist, at string) {
+	h.walking = true
+	defer func() { h.walking = false }()
+	h.createPod("p0")
+	h.deliverPod("p0")
+	h.deliverENI("p0")
+	h.mon.mu.Lock()
+	p := h.mon.cur["p0"]
+	h.mon.mu.Unlock()
+	h.remove(p)
+	h.scriptedAt = at
+	h.scripted = func() {
+		for i := 0; i < 2; i++ {
+			h.deliverPod("p0") // the pod's deletion reaches the pod controller
+			h.deliverENI("p0")
+			h.deliverENI("p0")
+			h.deliverENI("p0")
+		}
+		h.createPod("p0")
+		h.deliverPod("p0")
+		h.deliverENI("p0")
+		h.deliverPod("p0")
+		h.deliverENI("p0")
+	}
+	h.gcRecords()
+	h.scripted = nil
+	for i := 0; i < 4; i++ {
+		h.deliverENI("p0")
+		h.deliverPod("p0")
+	}
 }
